@@ -4,12 +4,12 @@ go 1.20
 
 require (
 	github.com/google/go-tdx-guest v0.0.0
+	github.com/google/logger v1.1.1
 	google.golang.org/protobuf v1.34.2
 )
 
 require (
 	github.com/google/go-configfs-tsm v0.3.2 // indirect
-	github.com/google/logger v1.1.1 // indirect
 	go.uber.org/multierr v1.11.0 // indirect
 	golang.org/x/crypto v0.17.0 // indirect
 	golang.org/x/sys v0.19.0 // indirect
